@@ -32,13 +32,21 @@ Definition tenmat_double_gen (X : dense V) (rd cd : option (list nat)) : option 
 Definition rows_of (D : dense V) : matrix :=
   mtab (nth 0 (dshape D) 0) (nth 1 (dshape D) 0) (fun a c => den_dense v0 D [a; c]).
 
-(* ---- tensor.nvecs:  Xn = self.to_tenmat(rdims=np.array([n])).double();  y = Xn @ Xn.T *)
+(* ---- tensor.nvecs:  Xn = ttb.tensor(self.double(), copy=False).to_tenmat(rdims=np.array([n])).double();  y = Xn @ Xn.T
+   (gram_dense_tm on the double-precision tensor; gram_dense_held below starts from the holder as the caller built it) *)
 Definition gram_dense_tm (X : dense V) (n : nat) : option matrix :=
   match tenmat_double_gen X (Some [n]) None with
   | Some Xn => let R := rows_of Xn in
                Some (map (fun ra => map (fun rb => row_dot v0 vadd vmul (nth 1 (dshape Xn) 0) ra rb) R) R)
   | None => None
   end.
+
+(* ---- /repo 08011d5 (finding C10-N03 repaired): the data holder of a dense tensor may have ANY element type B (bool, int8 ... uint16,
+   float32: ttb.tensor keeps the caller's dtype); `self.double()` converts entry by entry to float64 and `ttb.tensor(..., copy=False)`
+   wraps the converted array with the same shape BEFORE the matricisation and the product — the Gram matrix is formed in V (float64),
+   never in B (where products would wrap around / be rounded to single precision / not exist for bool) *)
+Definition t_double {B : Type} (dbl : B -> V) (X : dense B) : dense V := mkDense (dshape X) (map dbl (ddata X)).
+Definition gram_dense_held {B : Type} (dbl : B -> V) (X : dense B) (n : nat) : option matrix := gram_dense_tm (t_double dbl X) n.
 
 (* ---- ttensor.nvecs, dense core:
      V_m = U_m^T U_m (m <> n), V_n = U_n;  H = core.ttm(V)                      (tensor.ttm over all modes: C02Dense / C01_tucker_impl)
